@@ -17,11 +17,17 @@ package jsonapi
 //@ ensures invalid: !validKind(t) ==> result == ""
 //@ ensures nonempty: validKind(t) ==> result != ""
 
+//@ spec baseKind(s string) = ite(s == "string", AttrTypeString, ite(s == "int", AttrTypeInt, ite(s == "int8", AttrTypeInt8, ite(s == "int16", AttrTypeInt16,
+//@   | ite(s == "int32", AttrTypeInt32, ite(s == "int64", AttrTypeInt64, ite(s == "uint", AttrTypeUint, ite(s == "uint8", AttrTypeUint8,
+//@   | ite(s == "uint16", AttrTypeUint16, ite(s == "uint32", AttrTypeUint32, ite(s == "uint64", AttrTypeUint64, ite(s == "bool", AttrTypeBool,
+//@   | ite(s == "time.Time" || s == "time", AttrTypeTime, ite(s == "[]uint8" || s == "[]byte" || s == "bytes", AttrTypeBytes, AttrTypeInvalid))))))))))))))
+//@ spec stripStar(t string) = ite(prefixof("*", t), substr(t, 1, len(t) - 1), t)
+
 //@ func GetAttrType
 //@ props C14 C17
 //@ flag pure
-//@ ensures valid-or-zero: validKind(result0) || (result0 == AttrTypeInvalid && !result1)
-//@ ensures inverse: forall k int, n bool :: validKind(k) && t == ite(n, "*" + kindName(k), kindName(k)) ==> result0 == k && result1 == n
+//@ ensures kind: result0 == baseKind(stripStar(t))
+//@ ensures nullable: result1 == (prefixof("*", t) && baseKind(stripStar(t)) != AttrTypeInvalid)
 
 // ---- representation invariant of a type ----
 
